@@ -263,11 +263,63 @@ def c03_script(rng, sizes, kind, rule, n_cases, exhaustive_single=False, sto='E'
     return S.text()
 
 
+def c03_transparent_script(rng, kind, rule, ncoll):
+    """collections in which some minterms carry the forest's *transparent* value
+    (0 / false / +infinity) while the default is not transparent, with minterms that are
+    don't-care on a suffix of the levels (so that a level has a don't-care group next to
+    explicit groups); and empty collections with every default into edges that already
+    hold something"""
+    sr, rngt, lab = KINDS[kind]
+    rel = sr == 'R'
+    sizes = rng.choice([[3, 4, 2], [2, 3, 2], [3, 2]]) if not rel else rng.choice([[2, 2], [3, 2], [3]])
+    K = len(sizes)
+    S = Script()
+    d = S.dom(sizes)
+    f = S.forest(d, kind, rule, sto=rng.choice(STO))
+    es = [S.new(f) for _ in range(3)]
+    if rngt == 'B':
+        settings = [('MIN', 1, [0]), ('MAX', 0, [1])]
+    elif lab == 'MT' and rngt == 'I':
+        settings = [('MAX', -7, [0, 0, 1, 3, -7]), ('MIN', 9, [0, 0, 2, 3, 9]), ('MIN', 1000000, [0, -1, 5])]
+    elif lab == 'MT':
+        settings = [('MAX', -160, [0, 0, 8, 64]), ('MIN', 544, [0, 0, 8, 240])]
+    else:   # EV+
+        settings = [('MAX', 1, [INF, INF, 2, 5, 100]), ('MAX', -3, [INF, 0, 1]), ('MIN', INF, [INF, 0, 5])]
+    for c in range(ncoll):
+        mode, dflt, vals = rng.choice(settings)
+        mts = []
+        for _ in range(rng.choice([2, 3, 5, 8])):
+            L = rng.randrange(0, K + 1)                 # levels 1..L are don't-care
+            un = [-1 if k < L else (rng.randrange(sizes[k]) if rng.random() < 0.8 else -1) for k in range(K)]
+            if rel:
+                pr = [-1 if k < L else rng.choice([-1, -2, rng.randrange(sizes[k])]) for k in range(K)]
+                un = [(-1 if pr[k] == -2 else un[k]) for k in range(K)]
+                a = un + pr
+            else:
+                a = un
+            mts.append((rng.choice(vals), a))
+        e = es[c % len(es)]
+        S.coll(e, f, mode, dflt, mts)
+        if c % 4 == 3:
+            # an empty collection: the constant default, into an edge that holds something else
+            m2, d2, _ = rng.choice(settings)
+            S.coll(es[(c + 1) % len(es)], f, m2, d2, [])
+    S.add('obs')
+    S.add('snap %d' % f)
+    return S.text()
+
+
 @plan('C03')
 def plan_c03(tier, seed, rng):
     scripts = []
     tiny = [[2], [3], [2, 2], [2, 3]]
     n = 0
+    for kind in ['mtb_s', 'mti_s', 'mtr_s', 'evp_s', 'mtb_r', 'mti_r', 'evp_r']:
+        for rule in gen.rules_of(kind):
+            if tier != 'thorough' and rng.random() < 0.35:
+                continue
+            scripts.append(('t%03d' % n, c03_transparent_script(rng, kind, rule, 24 if tier == 'thorough' else 12)))
+            n += 1
     for kind in build_kinds():
         for rule in gen.rules_of(kind):
             rel = KINDS[kind][0] == 'R'
@@ -294,7 +346,7 @@ def plan_c03(tier, seed, rng):
         scripts=scripts, validators=[API, STORE], tags={'C03'},
         rule='every single minterm (fixed / don\'t-care / don\'t-change in every position) on tiny shapes per forest kind x reduction rule, '
              'plus seeded random collections (1..24 overlapping minterms, MAX/MIN/single, defaults allowed by the API), constants and '
-             'createEdgeForVar on random shapes up to 4 variables of sizes 2..5; a case is non-trivial when the resulting table is not constant; '
+             'createEdgeForVar on random shapes up to 4 variables of sizes 2..5; collections whose minterms carry the transparent value under a non-transparent default (with don\'t-care suffixes) and empty collections into edges that already hold a function; a case is non-trivial when the resulting table is not constant; '
              'distinct = distinct recorded call lines',
         exhaustive=False,
     )
@@ -701,10 +753,58 @@ def c10_script(rng, sizes, src, srule, dst, drule, tables):
     return S.text()
 
 
+def c10_recycle_script(rng, src, dst, rule, trials):
+    """copies around handle recycling: a relation is copied, released so that only its
+    root dies (a sibling keeps the lower nodes alive), the caches are cleared, a new
+    relation whose root is (nearly) the only new node is built - taking the recycled
+    handle - and copied: per-handle state kept from the first copy must not leak"""
+    sizes = rng.choice([[3, 3], [2, 3], [3, 2]])
+    S = Script()
+    d = S.dom(sizes)
+    fs = S.forest(d, src, rule, sto=rng.choice('EFS'), dele=rng.choice(['O', 'P']))
+    fd = S.forest(d, dst, rule, sto=rng.choice('EFS'))
+    x, z, r1, r2 = S.new(fs), S.new(fs), S.new(fd), S.new(fd)
+    s1, s2 = sizes
+    low_n = s1 * s1
+    pal = [v for v in (COPY_PAL.get(src) or [1]) if v not in (INF, gen.default_of(src))] or [1]
+    for t in range(trials):
+        # a pool of lower-level blocks; a relation = an assignment of blocks to the upper (from, to) pairs
+        blocks = [[(rng.choice(pal) if rng.random() < 0.5 else gen.default_of(src)) for _ in range(low_n)] for _ in range(3)]
+
+        def table(assign):
+            T = []
+            for up in range(s2 * s2):
+                T += blocks[assign[up]] if assign[up] >= 0 else [gen.default_of(src)] * low_n
+            return T
+        base = [rng.choice([-1, 0, 1, 2]) for _ in range(s2 * s2)]
+        if all(b < 0 for b in base):
+            base[0] = 0
+        zed = list(base)
+        zed[rng.randrange(len(zed))] = rng.choice([0, 1, 2])
+        why = list(base)
+        k = rng.randrange(len(why))
+        why[k] = (why[k] + 1) % 3 if why[k] >= 0 else rng.choice([0, 1, 2])
+        table_coll(S, x, fs, src, table(base), sizes)
+        table_coll(S, z, fs, src, table(zed), sizes)
+        S.add('un COPY %d %d' % (r1, x))
+        S.add('obs %d %d' % (x, r1))
+        S.add('attach %d -1' % x)
+        S.add('attach %d %d' % (x, fs))
+        S.add('clearall')
+        table_coll(S, x, fs, src, table(why), sizes)
+        S.add('un COPY %d %d' % (r2, x))
+        S.add('obs %d %d %d' % (x, r2, z))
+    return S.text()
+
+
 @plan('C10')
 def plan_c10(tier, seed, rng):
     scripts = []
     n = 0
+    for (src, dst) in [('mtb_r', 'mti_r'), ('mti_r', 'mti_r'), ('mtb_r', 'mtb_r'), ('mti_r', 'mtr_r')]:
+        for rule in (['I', 'F', 'Q'] if tier == 'thorough' else ['I', rng.choice('FQ')]):
+            scripts.append(('h%03d' % n, c10_recycle_script(rng, src, dst, rule, 12 if tier == 'thorough' else 6)))
+            n += 1
     for shape_kinds, rel in ((['mtb_s', 'mti_s', 'mtr_s', 'evp_s'], False),
                              (['mtb_r', 'mti_r', 'mtr_r', 'evp_r', 'evt_r'], True)):
         pairs = [(s, d) for s in shape_kinds for d in shape_kinds]
@@ -736,7 +836,7 @@ def plan_c10(tier, seed, rng):
              'forests even for equal kinds, source/target reduction rules drawn from all rules of the kind (all rule pairs in thorough); functions: all '
              'boolean functions on the smallest shapes, seeded tables from a palette (negative, zero, positive, large, infinity) elsewhere, plus the '
              'constant functions; each function is copied there and back (identity of the round trip is checked against the original edge when the '
-             'functions are equal); non-trivial = result table not constant',
+             'functions are equal); copies around handle recycling (a copied relation dies except for its lower nodes, caches cleared, a new relation takes the recycled root handle and is copied); non-trivial = result table not constant',
         exhaustive=False,
     )
 
@@ -1022,6 +1122,8 @@ def plan_c09(tier, seed, rng):
         setups.append(('evp_s', (rng.choice('FQ'), rng.choice('FQ')), 'mtb_r', rr, IMG))
         setups.append(('mti_s', (rng.choice('FQ'), rng.choice('FQ')), 'mti_r', rr, ['VM_MULTIPLY', 'MV_MULTIPLY']))
         setups.append(('mtr_s', (rng.choice('FQ'), rng.choice('FQ')), 'mtr_r', rr, ['VM_MULTIPLY', 'MV_MULTIPLY']))
+        # matrix of another range type than the vector (the entries are decoded in the matrix forest)
+        setups.append((rng.choice(['mtr_s', 'mti_s']), (rng.choice('FQ'), rng.choice('FQ')), rng.choice(['mti_r', 'mtb_r']), rr, ['VM_MULTIPLY', 'MV_MULTIPLY']))
     for (sk, rules, rk, rr, ops) in setups:
         shapes = [[2], [3]] + ([[2, 2], [3, 2], [2, 3], [4, 2], [2, 2, 2], [3, 2, 2]] if tier == 'thorough' else [rng.choice([[3, 2], [4, 2]])] + rng.sample([[2, 3], [2, 2, 2], [3, 2, 2]], 1))
         for sizes in shapes:
